@@ -147,6 +147,15 @@ wait:
 		binary.BigEndian.PutUint16(*r, orgId)
 		return r, nil
 	case <-dc.closeNotify:
+		// A reply that was handed over before the connection was closed
+		// (e.g. the peer sent it and closed right after) must not be lost.
+		select {
+		case r := <-respChan:
+			orgId := binary.BigEndian.Uint16(q)
+			binary.BigEndian.PutUint16(*r, orgId)
+			return r, nil
+		default:
+		}
 		return nil, dc.closeErr
 	}
 }
